@@ -285,6 +285,15 @@ func (e *Env) foreignGlobal(x *Expr) (Bound, bool) {
 	}
 	pk, ok := e.p.ssaPkgs[x.Args[0].Name]
 	if !ok {
+		// a variable of a package outside the repository (io.EOF ...): known when the code itself refers to it
+		comp := globalComp(x.Args[0].Name, x.Name)
+		if ci, ok := e.vc.comps[comp]; ok {
+			var t types.Type
+			if ci.sort == "Iface" {
+				t = types.Universe.Lookup("error").Type()
+			}
+			return Bound{V: Val{e.vc.get(e.state, comp), ci.sort}, T: t}, true
+		}
 		return Bound{}, false
 	}
 	g, ok := pk.Members[x.Name].(*ssa.Global)
